@@ -139,7 +139,9 @@ let handle kind c =
                fs_local = (if lp then Some entries else None);
                fs_upload = (if up then Some unames else None) } in
     let cfg = { rc_start = ns_of ss sn; rc_x = (fun _ -> xkey); rc_rate = ratekey; rc_resp = (fun _ -> status) } in
-    let (effs, fs') = run Z.ltb Z0 cfg fs in
+    (* the real entry point upload.Run: the rate is the published one (downloaded in mode on) *)
+    let (effs, fs') =
+      if how = "Run" then run_entry Z.ltb Z0 ratekey cfg fs else run Z.ltb Z0 cfg fs in
     (* model = implementation *)
     let mposts = List.sort compare (List.filter_map (function EPost (fd, _) -> Some ("POST /" ^ show fd) | _ -> None) effs) in
     let ireqs = sort_names reqs in
